@@ -223,6 +223,11 @@ func ruleConnHandlerGuard(c *Ctx, rule string) {
 // mustPassBefore: every path from start to a stop block (or a function exit) contains an
 // instruction satisfying hit. Returns the offending block trail otherwise.
 func mustPassBefore(start *ssa.BasicBlock, hit func(ssa.Instruction) bool, stop func(*ssa.BasicBlock) bool) (bool, []string) {
+	return mustPassBeforeX(start, hit, stop, false)
+}
+
+// mustPassBeforeX: with exitOK, paths that leave the function are acceptable.
+func mustPassBeforeX(start *ssa.BasicBlock, hit func(ssa.Instruction) bool, stop func(*ssa.BasicBlock) bool, exitOK bool) (bool, []string) {
 	seen := map[*ssa.BasicBlock]bool{}
 	var trail []string
 	var visit func(b *ssa.BasicBlock) bool
@@ -235,6 +240,9 @@ func mustPassBefore(start *ssa.BasicBlock, hit func(ssa.Instruction) bool, stop 
 			if hit(in) {
 				return true
 			}
+		}
+		if exitOK && len(b.Succs) == 0 && !stop(b) {
+			return true
 		}
 		if stop(b) || len(b.Succs) == 0 {
 			trail = append(trail, fmt.Sprintf("block %d (%s) reached without it", b.Index, b.Comment))
